@@ -194,9 +194,14 @@ RelKindOf(what) ==
     [] what = "AddEndnote" -> <<"endnotes">>
     [] OTHER -> <<>>
 
+\* positions (in body) of the pictures that are paragraphs of the body itself
+BodyPicPos(s) == {i \in 1..Len(s.body) : s.body[i].k = "pic"}
+NthBodyPic(s, n) == CHOOSE i \in BodyPicPos(s) : Cardinality({j \in BodyPicPos(s) : j <= i}) = n
+
 \* when the call is expected to succeed
 Guard(s, op) ==
-  CASE op.op = "AddCellImage" -> /\ op.tbl >= 1 /\ op.tbl <= NTables(s)
+  CASE op.op = "RemovePic" -> op.i >= 1 /\ op.i <= Cardinality(BodyPicPos(s))
+    [] op.op = "AddCellImage" -> /\ op.tbl >= 1 /\ op.tbl <= NTables(s)
                                  /\ op.r \in 0..(TblRows - 1) /\ op.c \in 0..(TblCols - 1)
                                  /\ (op.fmt = "" \/ op.fmt = op.img.f)
     [] op.op = "AddCellPlaceholder" -> /\ op.tbl >= 1 /\ op.tbl <= NTables(s)
@@ -209,6 +214,7 @@ Ret(s, op) == IF Guard(s, op) THEN "ok" ELSE "err"
 RequestedPics(s, op) ==
   IF ~Guard(s, op) THEN 0
   ELSE CASE op.op \in {"AddImage", "AddCellImage"} -> 1
+         [] op.op = "RemovePic" -> -1
          [] op.op = "Render" -> IF op.keep THEN 0
                                 ELSE Cardinality({p \in PhPaths(s) : DataFor(op.data, ElAt(s, p).slot).slot # 0})
          [] op.op = "RenderString" ->
@@ -232,6 +238,7 @@ Apply0(s, op) ==
          [s EXCEPT !.body[TablePos(s, op.tbl)].cells[CellIdx(op)] = Append(@, Ph(op.slot, op.lay))]
     [] op.op = "Render" -> IF op.keep THEN s ELSE RenderDoc(s, op.data)
     [] op.op = "RenderString" -> [RenderLines(InitSt, op.slots, 1, op.data) EXCEPT !.origin = "rstring"]
+    [] op.op = "RemovePic" -> [s EXCEPT !.body[NthBodyPic(s, op.i)] = Txt]   \* the media part and the relationship stay
     [] op.op = "Other" -> AddRel(s, RelKindOf(op.what))
     [] op.op = "Save" -> s
     [] op.op = "Reopen" -> [s EXCEPT !.origin = "reopen"]
